@@ -26,15 +26,18 @@ def geff (g n : Nat) : Nat := min n g
 /-- `nreads` after the `lastread < skipback` correction -/
 def nreads (g n k : Nat) : Nat :=
   let st := geff g n - k
-  if n % st < k then n / st - 1 else n / st
+  if geff g n = n then 0          -- the whole range fits in a single read
+  else if n % st < k then n / st - 1 else n / st
 
 /-- `lastread` after the correction -/
 def lastread (g n k : Nat) : Nat :=
   let st := geff g n - k
-  if n % st < k then n - (n / st - 1) * st else n % st
+  if geff g n = n then n
+  else if n % st < k then n - (n / st - 1) * st else n % st
 
 /-- The plan arithmetic (`readers.py`: gulp=min(nsamps,gulp); skipback>=gulp rejected;
-    divmod; correction; a corrected last block shorter than skipback is rejected). -/
+    a range that fits in one gulp is a single block; otherwise divmod; correction;
+    a corrected last block shorter than skipback is rejected). -/
 def planBlocks (g n k : Nat) : Except Err (List Entry) :=
   if k ≥ geff g n then .error .valueError
   else if lastread g n k < k then .error .valueError
